@@ -152,6 +152,7 @@ type Env struct {
 	canonQ   bool   // render quantifiers as SMT quantifiers over canonical bound names (for syntactic matching)
 	noShare  bool
 	hybrid   bool
+	forceNative bool // inside a sub-formula of mixed polarity: every quantifier is emitted natively
 	hybridAll bool // alternating hypotheses stay with the solver as well (contract pragma: quantifiers solver)
 	specPkg  string // package of the spec function being expanded (type names in its body resolve there)
 	qdepth   int
@@ -279,7 +280,13 @@ func pickTy(a, b types.Type) types.Type {
 // the expression to be quantifier-free).
 func (e *Env) boolBoth(x *Expr) Term {
 	if containsQuant(x, e.x.db) {
-		sfail("quantifier in a position of mixed polarity: %s", x)
+		if !(e.canonQ && e.hybridAll) {
+			sfail("quantifier in a position of mixed polarity: %s", x)
+		}
+		// solver-side quantifiers: emitted natively, whatever the polarity
+		n := *e
+		n.forceNative = true
+		return n.Bool(x)
 	}
 	return e.Bool(x)
 }
@@ -567,6 +574,19 @@ func (e *Env) call(x *Expr) TV {
 			}
 		}
 		sfail("len of %s", a.T.Sort)
+	case "keyset":
+		// keyset(m): the set of keys of a Go map (empty for the nil map)
+		a := e.Tr(x.Args[0])
+		if a.Ty == nil {
+			sfail("keyset needs a Go map")
+		}
+		mt, ok := a.Ty.Underlying().(*types.Map)
+		if !ok {
+			sfail("keyset needs a Go map")
+		}
+		mv := e.x.mapSel(e.st, mt, a.T)
+		ks := e.x.tm.SortOf(mt.Key())
+		return TV{Ite(Eq(a.T, IntLit(0)), e.x.tm.ConstArray(ks, tFalse), MapHas(mv)), nil}
 	case "lookup":
 		// lookup(m, k): the Go expression m[k] of a map (zero value when k is absent)
 		a := e.Tr(x.Args[0])
@@ -906,7 +926,7 @@ func (e *Env) quant(x *Expr) TV {
 	// inside (each instance creates a skolem term that re-triggers the hypothesis: matching loop),
 	// which are instantiated by the generator under its generation limits
 	instSide := (x.Name == "forall") == e.assume
-	if e.canonQ && !(e.hybrid && (!instSide || (containsQuant(x.Args[0], e.x.db) && !e.hybridAll))) {
+	if e.canonQ && (e.forceNative || e.qdepth > 0 || !(e.hybrid && (!instSide || (containsQuant(x.Args[0], e.x.db) && !e.hybridAll)))) {
 		vars := map[string]TV{}
 		for k, v := range e.vars {
 			vars[k] = v
@@ -944,7 +964,11 @@ func (e *Env) quant(x *Expr) TV {
 				e.fact(f)
 			}
 		}
-		if len(inner) > 0 {
+		if len(inner) > 0 && e.forceNative {
+			// mixed polarity: the facts (valid for every value of the bound variables) can neither be
+			// conjoined nor assumed inside; they are hoisted as a universally quantified assumption
+			e.fact(Term{fmt.Sprintf("(forall (%s) %s)", strings.Join(decls, " "), And(inner...).S), SBool})
+		} else if len(inner) > 0 {
 			if !e.assume {
 				// goal side: the facts are valid for every value of the bound variables, so they may be
 				// assumed under a universal and under an existential alike
@@ -952,6 +976,15 @@ func (e *Env) quant(x *Expr) TV {
 			} else {
 				body = And(append(inner, body)...)
 			}
+		}
+		if len(x.Trig) > 0 {
+			var pats []string
+			tn := *n
+			tn.facts = nil
+			for _, t := range x.Trig {
+				pats = append(pats, tn.Tr(t).T.S)
+			}
+			return TV{Term{fmt.Sprintf("(%s (%s) (! %s :pattern (%s)))", x.Name, strings.Join(decls, " "), body.S, strings.Join(pats, " ")), SBool}, nil}
 		}
 		return TV{Term{fmt.Sprintf("(%s (%s) %s)", x.Name, strings.Join(decls, " "), body.S), SBool}, nil}
 	}
